@@ -216,6 +216,9 @@ where
     /// Returns [Err] if the stream fails to close gracefully.
     pub async fn finish(mut self) -> Result<()> {
         self.flush_batch()?;
+        // Frames handed to the framed writer sit in its buffer until flushed; finishing the
+        // QUIC stream underneath it without flushing would drop them.
+        self.stream.flush().await?;
         self.stream.finish().await
     }
 
